@@ -24,10 +24,13 @@ Ctl ==
   \/ \E s \in Streams : ASendPrio(s) /\ hist' = Append(hist, Rec("prio", s, 0, 0, FALSE, "-", 0))
   \/ \E d \in Pings : ASendPing(d) /\ hist' = Append(hist, Rec("ping", 0, d, 0, FALSE, "-", 0))
   \/ nSend >= MaxSend - 2 /\ ASendGoAway /\ hist' = Append(hist, Rec("goaway", 0, 0, 0, FALSE, "-", 0))   \* towards the end only
+  \* the sender ends its side while the relay still holds frames for the receiver; after that the receiver only grants
+  \* window (its SETTINGS would have to be forwarded to an endpoint that may be gone)
+  \/ (\E s \in Streams : q[s] # <<>>) /\ ASendClose /\ hist' = Append(hist, Rec("close", 0, 0, 0, FALSE, "-", 0))
   \/ \E s \in Streams \cup {0}, i \in Incs :
         BCtl([t |-> "WU", s |-> s, v |-> i]) /\ hist' = Append(hist, Rec("ctl", s, 0, 0, FALSE, "WU", i))
-  \/ \E v \in InitWins : BCtl([t |-> "SI", s |-> 0, v |-> v]) /\ hist' = Append(hist, Rec("ctl", 0, 0, 0, FALSE, "SI", v))
-  \/ \E v \in MaxFrames : BCtl([t |-> "SM", s |-> 0, v |-> v]) /\ hist' = Append(hist, Rec("ctl", 0, 0, 0, FALSE, "SM", v))
+  \/ ~aClosed /\ \E v \in InitWins : BCtl([t |-> "SI", s |-> 0, v |-> v]) /\ hist' = Append(hist, Rec("ctl", 0, 0, 0, FALSE, "SI", v))
+  \/ ~aClosed /\ \E v \in MaxFrames : BCtl([t |-> "SM", s |-> 0, v |-> v]) /\ hist' = Append(hist, Rec("ctl", 0, 0, 0, FALSE, "SM", v))
 Internal == UNCHANGED hist /\ (WriterSend \/ ApplyCtl \/ BRecvGoAway \/ \E d \in Pings : BRecvPing(d))
 GNext == Ctl \/ Internal
 GSpec == GInit /\ [][GNext]_gvars
